@@ -9,6 +9,7 @@ mod fault;
 mod opts;
 mod mem;
 mod part;
+mod twin;
 mod cont;
 mod util;
 
@@ -146,6 +147,11 @@ fn main() {
         "C16" => {
             let mut rep = Report::new("C16", "valid streams of every format followed by nothing / zeros / random bytes / 0xFF / another stream, read with three buffer schedules; the bytes consumed from the source must be exactly the stream; non-trivial = non-empty data; distinct = (format, trailer kind, size class, schedule)");
             cont::run_c16(&mut rep, &mut rng, thorough);
+            rep
+        }
+        "TWIN" => {
+            let mut rep = Report::new("TWIN", "cases = one call of the real function through its hook on generated arguments (extend_match: repetitive buffers, limits touching the physical end; normalize: table lengths around the SIMD width, offsets near i32::MAX); non-trivial = non-empty argument; distinct = (function, size class, extension, touches-end)");
+            twin::run_twins(&mut rep, &mut rng, thorough);
             rep
         }
         "C02" => {
